@@ -280,10 +280,14 @@ Definition thesaurus_at (file : bytes) (thesLoc : N) : option (list (str * list 
   do (fl, r) <- dec_uv bs;
   do (fb, r2) <- take fl r;
   do kvs <- dec_fst fb;
+  (* a thesaurus that lost every definition in a merge has an empty term map and NO id table at all
+     (writeSynTermMap writes nothing for an empty table): no term, hence nothing to look up *)
+  match kvs with [] => Some [] | _ =>
   do (ns, r3) <- dec_uv r2;
   if negb (count_ok file ns) then None else
   do (idmap, _) <- repeat_dec (N.to_nat ns) dec_synterm r3;
-  mapopt (fun kv => do ps <- syn_pairs file idmap (snd kv); Some (fst kv, ps)) kvs.
+  mapopt (fun kv => do ps <- syn_pairs file idmap (snd kv); Some (fst kv, ps)) kvs
+  end.
 
 (* ---------- per field ---------- *)
 Record pfield := { pf_name : str; pf_dict : list (str * list hit); pf_dv : option (list (N * list str));
